@@ -714,10 +714,15 @@ def reproducibility_case(draw, tier):
     tmpls = draw(_sized(call_template(n_ps), [1, 2, 2, 3]))
     n_steps = draw(st.sampled_from([4, 8, 12, 16]))
     steps = [{"op": "global_seed", "n": draw(st.integers(0, SEED_MAX))}]
+    mult_ps = sorted({t["args"]["p"] for t in tmpls if t["entry"] == "mult"})
     for _ in range(n_steps):
         op = draw(st.sampled_from(["call"] * 7 + ["global_draw", "global_draw", "gen_draw", "global_seed",
-                                                  "exp_reset_seed", "tomo_reset_seed"]))
-        if op == "call":
+                                                  "exp_reset_seed", "tomo_reset_seed"] + (["mult_warm"] * 2 if mult_ps else [])))
+        if op == "mult_warm":
+            # the MultinomialDistribution object a later "mult" call re-uses is sampled with other arguments first
+            steps.append({"op": op, "p": draw(st.sampled_from(mult_ps)), "num": draw(_N_MULT), "size": draw(st.integers(1, 3)),
+                          "seed": draw(st.integers(0, SEED_MAX))})
+        elif op == "call":
             kind = draw(st.sampled_from(["int", "int", "int", "shared", "shared", "none"]))
             stp = {"op": "call", "tmpl": draw(st.integers(0, len(tmpls) - 1)), "stream": kind}
             if kind == "int":
@@ -792,7 +797,19 @@ def _run_entry(e, c, setup, stream_arg, dataset_streams=None):
         return dg.generate_empi_dists_sequence_from_prob_dists([p.copy() for p in c["ps"]],
                                                                [list(x) for x in c["list_num_sums"]], stream_arg)
     if e == "mult":
-        return MultinomialDistribution(c["p"].copy()).execute_random_sampling(c["num"], c["size"], stream_arg)
+        # one MultinomialDistribution object per probability vector and program: later calls re-use it (possibly with
+        # another num / size / stream), so anything the object remembers from an earlier call shows up
+        pool = getattr(setup, "_mult_pool", None)
+        if pool is None:
+            pool = {}
+            try:
+                setup._mult_pool = pool
+            except Exception:
+                pass
+        key = c["p"].tobytes()
+        if key not in pool:
+            pool[key] = MultinomialDistribution(c["p"].copy())
+        return pool[key].execute_random_sampling(c["num"], c["size"], stream_arg)
     if e == "exp_data":
         return ex.generate_data(c["idx"], c["n"], stream_arg)
     if e == "exp_dataset":
@@ -965,6 +982,14 @@ def check_reproducibility(case, ctx):
                 tomo_seed = stp["n"]
             if tomo_seed is not None:
                 mirror.seed(tomo_seed)
+        elif op == "mult_warm":
+            ctx.label("history:mult_object_sampled_before")
+            c = {"p": np.array(case["ps"][stp["p"]], dtype=np.float64), "num": stp["num"], "size": stp["size"]}
+            res = _run_entry("mult", c, setup, int(stp["seed"]))
+            ref, blocks = _reference("mult", c, setup, M.Stream(np.random.Generator(np.random.MT19937(int(stp["seed"])))))
+            ctx.check(M.results_equal(res, ref), "int_seed_equals_fresh_generator:mult",
+                      lambda: f"step {si}: {M.short(res)} reference {M.short(ref)}")
+            _validity(ctx, "mult", res, blocks)
         elif op == "call":
             tmpl = case["templates"][stp["tmpl"]]
             e = tmpl["entry"]
